@@ -10,7 +10,7 @@
    [unseen ieqb old l] keeps the columns of l whose identity no column of [old] has;
    [subseq a b]: a is b with elements left out, order kept;  [pops k o]: o is pop_column on schema k. *)
 From Coq Require Import List ZArith Bool.
-From Orso Require Import Model.C17 Proofs.C17 Proofs.C17_Iter Proofs.C17_Session.
+From Orso Require Import Model.C17 Proofs.C17 Proofs.C17_Iter Proofs.C17_Session Proofs.C17_IAdd.
 Import ListNotations.
 
 (* ---------------- union ---------------- *)
@@ -507,6 +507,39 @@ Proof.
 Qed.
 Print Assumptions C17_column_list_mutated_in_place.
 
+(* ---------------- round 7: the union through the augmented-assignment operator ---------------- *)
+
+(* `acc = store[i]; acc += store[j]; store.append(acc)` (HIAdd i j; also operator.iadd) IS the plain sum
+   as a step of a history: it creates add a b as a new schema (name / aliases of the left) and every
+   schema that existed before the call - the left operand, which the caller can still reach through the
+   store, included - has the value it had; so C17_operands_unchanged / C17_history_frame /
+   C17_iterators_leave_schemas (whose [plain] counts HIAdd i j as OAdd i j) cover it verbatim. *)
+Theorem C17_augmented_union :
+  forall (I T P : Type) (ieqb : I -> I -> bool) (teqb : T -> T -> bool) (lower : T -> T) (peqb : P -> P -> bool)
+         (st : list (schema I T P)) (its : iters T) (i j : nat) (a b : schema I T P),
+  nth_error st i = Some a -> nth_error st j = Some b ->
+  hstep ieqb teqb lower peqb (st, its) (HIAdd i j) = ((st ++ [add ieqb a b], its), XNew (sname a) (saliases a)) /\
+  hstep ieqb teqb lower peqb (st, its) (HIAdd i j) = hstep ieqb teqb lower peqb (st, its) (HOp (OAdd i j)) /\
+  (forall k s, nth_error st k = Some s -> nth_error (st ++ [add ieqb a b]) k = Some s) /\
+  nth_error (st ++ [add ieqb a b]) (length st) = Some (add ieqb a b).
+Proof. intros I T P ieqb teqb lower peqb. exact (iadd_step I T P ieqb teqb lower peqb). Qed.
+Print Assumptions C17_augmented_union.
+
+(* A chain folded with += (`acc = store[i]; for j in js: acc += store[j]`, every intermediate value of
+   acc kept): the store afterwards is the ORIGINAL store, unchanged, followed by the partial sums; the last
+   of them is fold_left add (C17_union_chain describes its columns); no iterator is touched. *)
+Theorem C17_augmented_chain :
+  forall (I T P : Type) (ieqb : I -> I -> bool) (teqb : T -> T -> bool) (lower : T -> T) (peqb : P -> P -> bool)
+         (js : list nat) (st : list (schema I T P)) (its : iters T) (i : nat) (a : schema I T P) (bs : list (schema I T P)),
+  nth_error st i = Some a -> Forall2 (fun j b => nth_error st j = Some b) js bs ->
+  fst (hrun ieqb teqb lower peqb (st, its) (iadd_chain T i (length st) js)) = (st ++ partials I T P ieqb a bs, its) /\
+  last (partials I T P ieqb a bs) a = fold_left (add ieqb) bs a.
+Proof.
+  intros I T P ieqb teqb lower peqb js st its i a bs Ha F.
+  split; [apply iadd_chain_run; assumption | apply partials_last].
+Qed.
+Print Assumptions C17_augmented_chain.
+
 (* ---------------- non-vacuity ---------------- *)
 
 (* The equality premises are satisfiable: the comparison used by the correspondence is one. *)
@@ -592,3 +625,14 @@ Example C17_nonvacuous_session :
   tags_of (fst (fst r)) = [[1; 2]; [3; 4; 4; 5; 6]; [3; 4]]%N /\
   target (HTable 2 true keys) = Some 2 /\ mutates (HRename 2 1 ex_a) = true.
 Proof. cbv zeta. split; [vm_compute; reflexivity|]. repeat split; vm_compute; reflexivity. Qed.
+
+(* round 7: `acc = l; acc += r; acc += l` on the store [l; r]: two new schemas [1 2 4], l and r as they were;
+   a removal on the first result reaches neither l nor the second result. *)
+Example C17_nonvacuous_augmented :
+  let hops := iadd_chain text 0 2 [1; 0] ++ [HOp (OPop 2 ex_a); HOp (ONames 0)] in
+  let r := hrun text_eqb text_eqb ascii_lower N.eqb ([ex_l; ex_rt], []) hops in
+  hops = [HIAdd 0 1; HIAdd 2 0; HOp (OPop 2 ex_a); HOp (ONames 0)] /\
+  map fst (snd r) = [XNew [108%N] [[76%N]]; XNew [108%N] [[76%N]]; XCol (Some 1%N); XNames [ex_a; ex_a]] /\
+  tags_of (fst (fst r)) = [[1; 2]; [3; 4; 4; 5; 6]; [2; 4]; [1; 2; 4]]%N /\
+  Forall2 (fun j b => nth_error [ex_l; ex_rt] j = Some b) [1; 0] [ex_rt; ex_l].
+Proof. cbv zeta. repeat split; try (vm_compute; reflexivity). repeat constructor. Qed.
